@@ -405,7 +405,9 @@ def _deep_tag(ln: str, pool: bool) -> str | None:
     Single battery, healthy data only:
       "cap"    four failed power commands over seven seconds (only those can reach the back-off cap);
       "reset"  failure, time passes, a message, a success, and a failure as the last step (the only way to
-               see that a success arriving after the block expired resets the back-off).
+               see that a success arriving after the block expired resets the back-off);
+      "late"   two failures with no set-power result and at least three seconds between them, the second as
+               the last step (a consecutive failure arriving later than previous expiry + doubled duration).
     Pool: "both"  both batteries were sent data on both streams and a command failed (only those can show
                a working and an uncertain battery together).
     """
@@ -418,6 +420,9 @@ def _deep_tag(ln: str, pool: bool) -> str | None:
         return "cap"
     if _RESET_RE.search(ln):
         return "reset"
+    res = ln.split(r'\"a\":\"res\"')
+    if len(res) >= 3 and res[-1].startswith(r',\"f\":[\"fail\"]}]') and res[-2].startswith(r',\"f\":[\"fail\"]') and res[-2].count("tick") >= 3:
+        return "late"
     return None
 
 
@@ -661,7 +666,7 @@ def run(prop: str, tier: str) -> int:
     rep.exhaustive = False  # emitted histories are subsampled / simulated; the MC stage itself is exhaustive
     need = dict(reportedUsable=1, disqualifiedEdges=1, silenceEdges=1, notifications=1, blockedPoints=1,
                 unblockedAfterBlock=1, resets=1, fallbackUsed=1, uncertainWithheld=1, maxConsecutive=4, devEdge=1,
-                successUnblockedThenFail=1, successAfterExpiryThenFail=1, successWhileBlockedThenFail=1)
+                successUnblockedThenFail=1, successAfterExpiryThenFail=1, successWhileBlockedThenFail=1, lateConsecutiveFail=1)
     tot = rep.extra.get("antecedents_total", {})
     ndis = rep.extra.get("disagreements", {}).get("traces_not_explained_by_spec", 0)
     rep.extra.setdefault("disagreements", dict(traces_not_explained_by_spec=0, examples=[]))
